@@ -241,7 +241,10 @@ def gen_scenario(t, max_jobs=10, with_recovery=True):
                 path.append({"running": run, "term": term, "dup": t.draw(3, "dup") == 2, "recover": False, "dup_running": t.draw(4, "dup.running") == 3})
             else:
                 path.append({"running": run, "term": ("FAILED", None)[t.draw(2, "viaFailed")], "dup": t.draw(3, "dup") == 2, "recover": True, "dup_running": t.draw(4, "dup.running") == 3,
-                             "direct_rollback": t.draw(4, "direct.rollback") == 3})
+                             "direct_rollback": t.draw(4, "direct.rollback") == 3,
+                             # a recovery that takes long (building and running the recovery workflow): the job stays in RECOVERY,
+                             # with its resources released, until the controller lets it go on at a quiescent point
+                             "recovery_hold": t.draw(3, "recovery.hold") == 2})
         jobs.append({"name": f"/s{j % 3}/0.{j}", "targets": targets, "req": req, "path": path,
                      # measured usage of the job's directories never exceeds what the job declared
                      # (a job writing more than it declared makes reserved+measured exceed the capacity
@@ -465,6 +468,14 @@ class Scenario:
                     await self._release(name, Status.ROLLBACK)
                 else:
                     await self._release(name, Status.RECOVERY)
+                    if step.get("recovery_hold"):
+                        sim.probe("recovery_hold")
+                        ev = asyncio.Event()
+                        self.held[name] = ev
+                        self.last_change = sim.loop.time()
+                        await ev.wait()
+                        self.held.pop(name, None)
+                        self.last_change = sim.loop.time()
                     await sim.io("recover", name)
                     await sched.notify_status(name, Status.ROLLBACK)
                 sim.probe("rollback")
